@@ -9,10 +9,12 @@ Import-free. Follows `crates/radicle-fetch/src/state.rs` stage by stage:
 * delegates / threshold arithmetic (`threshold - 1` for a local delegate, blocked delegates removed,
   the local key blocked on `pull`);
 * the special-refs stage (`specialStage`): `SpecialRefs` (ls-refs prefixes by scope, `ref_filter`,
-  `ensure_threshold`) or `SigrefsAt` (announced `refs_at`, de-duplicated, last announcement wins; since the
-  announced tips are inserted into `state.sigrefs` after the stage, the advertisement plays no role on this
-  path). Its result is the set of special references (`rad/id`, `rad/sigrefs` per remote) queued for update
-  — `state.sigrefs` is exactly its `rad/sigrefs` part — and the remotes whose signed refs are loaded;
+  `ensure_threshold`; the serving side may list references in any order and more than once: the last
+  listing of a reference is the one recorded in `state.sigrefs` and queued by `special_refs_updates`) or
+  `SigrefsAt` (announced `refs_at`, de-duplicated, last announcement wins; since the announced tips are
+  inserted into `state.sigrefs` after the stage, the advertisement plays no role on this path). Its result is
+  the set of special references (`rad/id`, `rad/sigrefs` per remote) queued for update — `state.sigrefs` is
+  exactly its `rad/sigrefs` part — and the remotes whose signed refs are loaded;
 * `RemoteRefs::load` through `Cached::load` (offered tip, else the stored one), with
   `SignedRefs::verify` = signature bit ∧ identity-root binding; any error fails the fetch;
 * `DataRefs::prepare_updates` (direct `Allow` updates for every signed ref, prune of stored unsigned refs that
@@ -127,6 +129,9 @@ def Refdb.del (db : Refdb) (r : Ref) : Refdb := db.filter (fun e => decide (e.1 
 
 def Refdb.set (db : Refdb) (r : Ref) (o : Oid) : Refdb := (r, o) :: Refdb.del db r
 
+/-- One entry per reference, the last listing wins (`BTreeMap`/`HashMap::insert` in listing order). -/
+def Refdb.normalise (db : Refdb) : Refdb := db.foldl (fun m e => Refdb.set m e.1 e.2) []
+
 /-- `references_of(remote)`: the references of one namespace. -/
 def Refdb.refsOf (db : Refdb) (k : Key) : List (Name × Oid) :=
   db.filterMap (fun e => if e.1.1 = k then some (e.1.2, e.2) else none)
@@ -210,8 +215,10 @@ def specialStage (env : Env) (cfg : Config) (blocked delegates : List Key) (thre
   match cfg.refsAt with
   | none =>
     let recv := specialReceived env cfg.scope blocked delegates A
-    if ensureThreshold delegates recv threshold then
-      .ok { sp := recv, loadKeys := recv.map (fun e => e.1.1) ++ delegates }
+    -- the distinct references received (`haves` is a set), the last listing of each
+    let sp := recv.normalise
+    if ensureThreshold delegates sp threshold then
+      .ok { sp := sp, loadKeys := recv.map (fun e => e.1.1) ++ delegates }
     else .error ()
   | some ras =>
     -- `SigrefsAt::prepare_updates` does not consult the block list
@@ -224,9 +231,16 @@ def specialStage (env : Env) (cfg : Config) (blocked delegates : List Key) (thre
 def specialPolicy (delegates : List Key) (k : Key) : Policy :=
   if delegates.contains k then .abort else .reject
 
-/-- `special_refs_updates` / `SigrefsAt::prepare_updates` for one remote. -/
-def specialUpdatesOf (delegates : List Key) (sp : Refdb) (k : Key) : List Update :=
-  (sp.refsOf k).map (fun e => Update.direct k e.1 e.2 (specialPolicy delegates k))
+/-- The update queued for one special reference of a remote, if it was offered. -/
+def specialUpdateOf (delegates : List Key) (sp : Refdb) (k : Key) (n : Name) : List Update :=
+  match sp.get (k, n) with
+  | some o => [Update.direct k n o (specialPolicy delegates k)]
+  | none => []
+
+/-- `special_refs_updates` / `SigrefsAt::prepare_updates` for one remote: at most one update per special
+reference, `rad/id` first (so that an abort on it happens before anything of the remote is applied). -/
+def specialUpdatesOf (env : Env) (delegates : List Key) (sp : Refdb) (k : Key) : List Update :=
+  specialUpdateOf delegates sp k env.nId ++ specialUpdateOf delegates sp k env.nSig
 
 /-- The stored references of the remote that `DataRefs::prepare_updates` prunes: not under `refs/rad`
 and not among the signed refs. -/
@@ -239,7 +253,7 @@ def dataUpdatesOf (env : Env) (L : Refdb) (k : Key) (b : Blob) : List Update :=
 
 /-- `FetchState::tips[remote]`. -/
 def blockOf (env : Env) (L sp : Refdb) (delegates : List Key) (k : Key) (b : Blob) : List Update :=
-  specialUpdatesOf delegates sp k ++ dataUpdatesOf env L k b
+  specialUpdatesOf env delegates sp k ++ dataUpdatesOf env L k b
 
 def memApply (mem : Refdb) : Update → Refdb
   | .direct k n t _ => mem.set (k, n) t
